@@ -446,9 +446,24 @@ end
 /-- `BaseSpec.validate_schema` does not raise: no ValidationError and no TypeError. -/
 def accepts (s : Schema) (j : JVal) : Bool := (validate s j).clean
 
+def JVal.isObj : JVal → Bool
+  | .obj _ => true
+  | _ => false
+
 /-- `BaseSpecList.__init__` (TaskSpecList, WorkflowSpecList, ActionSpecList): the members of the
-    section that get a specification object: `for k, v in data.items(): if k != 'version': …`. -/
+    section that get a specification object: `for k, v in data.items(): if k != 'version': …`.  The
+    skipped entry is the marker `version: '2.0'` that WorkbookSpec injects into its `actions` /
+    `workflows` sections; in a `tasks` section there is no marker, and a task named `version` is
+    rejected by `WorkflowSpec.validate_schema` since repo patch 27 (`tasksNameCheck`). -/
 def specListMembers (kvs : List (Key × JVal)) : List (Key × JVal) :=
+  kvs.filter (fun kv => kv.1 != Key.s "version")
+
+/-- `WorkflowSpec.validate_schema`: `if 'version' in self._data.get('tasks'): raise InvalidModelException`. -/
+def tasksNameCheck (tkvs : List (Key × JVal)) : Bool := !hasKey "version" tkvs
+
+/-- `BaseListSpec.__init__` (WorkflowListSpec, ActionListSpec): `if k != 'version'` — here `version` is
+    the version of the document itself (required by the schema, a string or a number). -/
+def listSpecMembers (kvs : List (Key × JVal)) : List (Key × JVal) :=
   kvs.filter (fun kv => kv.1 != Key.s "version")
 
 end Mistral.Schema
